@@ -872,6 +872,19 @@ var Corpus = []Scenario{
 		x.Template("D")
 		x.D.Converge(40)
 	}},
+	{"setting-unusable-selector-no-node", []string{"C18"}, func(x Scn) {
+		// a cluster that has (momentarily) no node: a setting with an unusable selector is still in error, a well-formed one valid
+		x.do(Action{Op: "CreateSetting", Key: Key, V: "s1", W: "foo|!bad|r1|", I: 2})
+		x.do(Action{Op: "CreateSetting", Key: Key, V: "s2", W: "foo|g1|r2|", I: 1})
+		x.do(Action{Op: "SettingReconcile", Key: "ns1/s1"})
+		x.do(Action{Op: "SettingReconcile", Key: "ns1/s2"})
+		x.do(Action{Op: "Mark", V: "SettingsDone"})
+		x.do(Action{Op: "NodeAdd", N: "n1", V: "A,B,C", W: "c;z=z1"})
+		x.do(Action{Op: "NodeGroup", N: "n1", V: "g1"})
+		x.do(Action{Op: "SettingReconcile", Key: "ns1/s1"})
+		x.do(Action{Op: "SettingReconcile", Key: "ns1/s2"})
+		x.do(Action{Op: "Mark", V: "SettingsDone"})
+	}},
 	{"two-eds-overlapping-labels", []string{"C12", "C13", "C02"}, func(x Scn) {
 		// the second ExtendedDaemonSet carries, among its own metadata labels, the name label of the first one (e.g. a manifest
 		// written from a copy of the first one's pod labels): legal input, "overlapping labels" of the statement of C12
